@@ -149,6 +149,84 @@ WORDS = {
     "case": [("alpha", "Alpha"), ("ab", "aB"), ("x", "X"), ("If", "if")],
 }
 
+# complete keyword lists of the target languages (fixed: ISO C11 6.4.1, ISO C++20 [lex.key] with the alternative tokens; Python's come from
+# the interpreter).  Used by the "bulk" sets: ONE type whose fields / constants / siblings carry every keyword at once, so that a single
+# word missing from the generator's reserved-word configuration is noticed in the quick tier too.
+C11_KEYWORDS = ("auto break case char const continue default do double else enum extern float for goto if inline int long register restrict "
+                "return short signed sizeof static struct switch typedef union unsigned void volatile while _Alignas _Alignof _Atomic _Bool "
+                "_Complex _Generic _Imaginary _Noreturn _Static_assert _Thread_local").split()
+CXX20_KEYWORDS = ("alignas alignof and and_eq asm auto bitand bitor bool break case catch char char8_t char16_t char32_t class compl concept "
+                  "const consteval constexpr constinit const_cast continue co_await co_return co_yield decltype default delete do double "
+                  "dynamic_cast else enum explicit export extern false float for friend goto if inline int long mutable namespace new noexcept "
+                  "not not_eq nullptr operator or or_eq private protected public register reinterpret_cast requires return short signed sizeof "
+                  "static static_assert static_cast struct switch template this thread_local throw true try typedef typeid typename union "
+                  "unsigned using virtual void volatile wchar_t while xor xor_eq").split()
+
+
+def wide_set(n=160):
+    """a structure with many fields (the property names maximally wide types): PyDSDL's bit length set of a structure is a chain of
+    operators one level deep per field, which the Python target pickles into every module"""
+    return {"id": "x-wide-%d" % n, "roots": ["wroot"], "files": {"wroot/Wide.1.0.dsdl": "".join("uint8 f%d\n" % i for i in range(n)) + "@sealed\n"},
+            "meta": {"src": "names", "pos": "field", "cls": "wide", "kind": "struct", "word": "*", "key": "wide|struct|%d fields" % n}}
+
+
+def bulk_sets(ctx):
+    """[(set, configurations)]: all keywords of C11 + C++20 (for c / cpp) resp. of Python (for py) as field names, as constant names and as
+    type names of one namespace; words the DSDL front end itself refuses are left out (each word is asked separately)."""
+    import pydsdl
+
+    def accepted(kind, w):
+        d = ctx.scratch / "bulkprobe" / ("%s-%s" % (kind, sha(w)[:8]))
+        (d / "broot").mkdir(parents=True)
+        try:
+            if kind == "field":
+                (d / "broot" / "B.1.0.dsdl").write_text("uint8 %s\n@sealed\n" % w)
+            elif kind == "const":
+                (d / "broot" / "B.1.0.dsdl").write_text("uint8 %s = 1\n@sealed\n" % w)
+            else:
+                (d / "broot" / ("%s.1.0.dsdl" % w)).write_text("uint8 a\n@sealed\n")
+            pydsdl.read_namespace(str(d / "broot"), [])
+            return True
+        except pydsdl.FrontendError:
+            return False
+        finally:
+            shutil.rmtree(d, ignore_errors=True)
+
+    ckw = sorted(set(C11_KEYWORDS) | set(CXX20_KEYWORDS))
+    pykw = sorted(set(keyword.kwlist) | set(getattr(keyword, "softkwlist", [])) | {b for b in dir(builtins) if not b.startswith("__")})
+    out = []
+    for cls, words, cfgs in (("c+cpp keywords", ckw, ["c", "cpp14", "cpp17pmr", "cpp20"]), ("py keywords+builtins", pykw, ["py"])):
+        for pos in ("field", "const", "type"):
+            ws = [w for w in words if accepted(pos, w)]
+            if pos == "type":  # type names: case-insensitively distinct (one file per type on case-insensitive file systems: front-end rule)
+                seen, uniq = set(), []
+                for w in ws:
+                    if w.lower() not in seen:
+                        seen.add(w.lower())
+                        uniq.append(w)
+                ws = uniq
+            if not ws:
+                continue
+            files = {}
+            chunks = [ws[i:i + 48] for i in range(0, len(ws), 48)]  # see wide_set(): very wide types meet an interpreter limit of their own
+            if pos == "field":
+                for n, ch in enumerate(chunks):
+                    files["broot/Bulk%d.1.0.dsdl" % n] = "".join("uint8 %s\n" % w for w in ch) + "@sealed\n"
+                    files["broot/BulkU%d.1.0.dsdl" % n] = "@union\n" + "".join("uint8 %s\n" % w for w in ch) + "@sealed\n"
+            elif pos == "const":
+                for n, ch in enumerate(chunks):
+                    files["broot/Bulk%d.1.0.dsdl" % n] = "".join("uint8 %s = %d\n" % (w, i % 200) for i, w in enumerate(ch)) + "@sealed\n"
+            else:
+                for w in ws:
+                    files["broot/%s.1.0.dsdl" % w] = "uint8 a\n@sealed\n"
+                for n, ch in enumerate(chunks):
+                    files["broot/User%d.1.0.dsdl" % n] = "".join("%s.1.0 f%d\n" % (w, i) for i, w in enumerate(ch)) + "@sealed\n"
+            key = "bulk|%s|%s|%d words" % (pos, cls, len(ws))
+            out.append(({"id": "b-" + sha(key)[:10], "roots": ["broot"], "files": files,
+                         "meta": {"src": "names", "pos": pos, "cls": "bulk:" + cls, "kind": "struct", "word": "*", "key": key, "words": ws}}, cfgs))
+    return out
+
+
 EXTREME_CONSTANTS = """\
 int2 I2MIN = -2
 int2 I2MAX = 1
@@ -702,24 +780,59 @@ def dsdl_identifiers(sset):
     return names
 
 
+def _diagnosed_tokens(sdir, diag, names):
+    """(path, DSDL identifiers of the input that occur as identifier tokens, outside comments, on the diagnosed line of generated code)"""
+    m = re.match(r"^(\S+?):(\d+):\d+:", diag)
+    if not m:
+        return None, set()
+    try:
+        line = (sdir / m.group(1)).read_text(errors="replace").splitlines()[int(m.group(2)) - 1]
+    except (OSError, IndexError, ValueError):
+        return None, set()
+    line = re.sub(r"/\*.*?\*/", " ", line)
+    line = re.sub(r"//.*$", "", line)
+    return sdir / m.group(1), set(re.findall(r"[A-Za-z_]\w*", line)) & names
+
+
 def macro_cause(argv, out, tu, sdir, diag, names):
     """root-cause attribution of a failed compile: the diagnosed line of generated code contains a DSDL identifier of the input that
     the preprocessor knows as a macro at the end of this translation unit (a standard-library macro: errno, EAGAIN, INT8_MAX, NULL ...).
     Returns the identifier or ''.  Only labels the verdict (one signature for the whole family); it never decides one."""
-    m = re.match(r"^(\S+?):(\d+):\d+:", diag)
-    if not m:
-        return ""
-    try:
-        line = (sdir / m.group(1)).read_text(errors="replace").splitlines()[int(m.group(2)) - 1]
-    except (OSError, IndexError, ValueError):
-        return ""
-    toks = set(re.findall(r"[A-Za-z_]\w*", line)) & names
+    _, toks = _diagnosed_tokens(sdir, diag, names)
     if not toks:
         return ""
     p = subprocess.run(argv[:4] + ["-E", "-dM", "-I", str(out), str(tu)], stdout=subprocess.PIPE, stderr=subprocess.DEVNULL, text=True, errors="replace")
     macros = set(re.findall(r"^#define ([A-Za-z_]\w*)", p.stdout, re.M))
     hit = sorted(toks & macros)
     return hit[0] if hit else ""
+
+
+def decl_cause(argv, out, sdir, diag, names, cfg, omode):
+    """the same kind of attribution for names the libraries DECLARE (std, size_t, int8_t, isalpha, nunavut ...): the diagnosed line
+    contains a DSDL identifier of the input, and a probe translation unit that includes what the diagnosed file includes from the
+    standard library and from the generated support library and then declares `extern int <identifier>;` is refused by the same tool
+    with the same flags (while the same probe with a fresh identifier is accepted).  Returns the identifier or ''.  Labels only."""
+    path, toks = _diagnosed_tokens(sdir, diag, names)
+    if not toks or path is None:
+        return ""
+    incs = []
+    for ln in path.read_text(errors="replace").splitlines():
+        m = re.match(r'^\s*#\s*include\s*(<[^>]+>|"[^"]+")', ln)
+        if m and (m.group(1).startswith("<") or "/support/" in m.group(1)):
+            incs.append("#include %s" % m.group(1))
+    probe = sdir / ("declprobe-%s-%s.src" % (cfg, omode))
+
+    def refused(tok):
+        probe.write_text("\n".join(incs) + "\nextern int %s;\n" % tok)
+        p = subprocess.run(argv + ["-fsyntax-only", "-I", str(out), str(probe)], stdout=subprocess.PIPE, stderr=subprocess.STDOUT, text=True, errors="replace")
+        return p.returncode != 0
+
+    if refused("c06_fresh_probe_name_"):
+        return ""
+    for tok in sorted(toks):
+        if refused(tok):
+            return tok
+    return ""
 
 
 _DEF = re.compile(r"^[ \t]*#[ \t]*define[ \t]+([A-Za-z_]\w*)[ \t]+(\S.*)$", re.M)
@@ -892,6 +1005,9 @@ def _process_set(job):
                             if ids is None:
                                 ids = dsdl_identifiers(sset)
                             cause = macro_cause(argv, out, tu, sdir, d0, ids)
+                            if not cause:
+                                dcl = decl_cause(argv, out, sdir, d0, ids, cfg, omode)
+                                cause = "decl:" + dcl if dcl else ""
                         ev.append({"ev": "compile", "file": cps(rel), "tool": tid, "std": tid.split("-", 1)[1], "rc": p.returncode,
                                    "diag": cps(d0), "more": [cps(x) for x in more], "cause": cause})
         res["units"].append({"cfg": cfg, "omit": omode, "events": ev})
@@ -1042,7 +1158,10 @@ class Campaign:
                 classes = set()
                 for k, diag in enumerate(diags):
                     dc = diag_class(diag) or "rc=%d" % e["rc"]
-                    if k == 0 and e.get("cause"):
+                    if k == 0 and (e.get("cause") or "").startswith("decl:"):
+                        dc = "a DSDL name that the standard or support library declares at that point is emitted unstropped"
+                        diag = "%s  [the diagnosed line contains the DSDL identifier '%s', which the libraries included there declare]" % (diag, e["cause"][5:])
+                    elif k == 0 and e.get("cause"):
                         dc = "a DSDL name that is a standard-library macro at that point is emitted unstropped"
                         diag = "%s  [the diagnosed line contains the DSDL identifier '%s', a macro here]" % (diag, e["cause"])
                     if dc in classes:
@@ -1401,6 +1520,22 @@ def run(ctx):
     if nsets:
         s = nsets[len(nsets) // 3]
         ctx.sample({"direction": "spec->code", "name_case": s["meta"], "dsdl": s["files"]})
+    camp.judge()
+
+    # ---- 3b. every keyword of the target languages at once (complete fixed lists, not the generator's configuration)
+    bsets = bulk_sets(ctx)
+    bjobs = [mkjob(ctx, bs, [(cfg, m) for cfg in cfgs for m in omodes], tool_matrix(full=False)) for bs, cfgs in bsets]
+    for (bs, cfgs), r in zip(bsets, run_jobs(ctx, bjobs)):
+        if not r["accepted"]:
+            raise MachineryFailure("the front end rejected a bulk keyword set although it accepted every word alone: %s (%s)" % (bs["meta"]["key"], r["why"]))
+        camp.add(bs, r)
+        ctx.distinct(bs["meta"]["key"])
+    ctx.cov["bulk_keyword_sets"] = [{"key": bs["meta"]["key"], "configurations": cfgs} for bs, cfgs in bsets]
+    wide = wide_set()
+    wr = run_jobs(ctx, [mkjob(ctx, wide, [(cfg, m) for cfg in ("c", "cpp17", "py") for m in omodes], tool_matrix(full=False))])[0]
+    if wr["accepted"]:
+        camp.add(wide, wr)
+        ctx.distinct(wide["meta"]["key"])
     camp.judge()
 
     # ---- 4. code -> spec: larger random sets and the trees shipped in the repository
